@@ -117,11 +117,12 @@ Fixpoint with_aggs (n : tnode) : tnode :=
            (map with_aggs ch)
   end.
 
-(* TreeMarshal.MakeTree.  [None] roster = nil pointer: ro.ID panics.
-   fix_f06 = false: the pinned code indexes Children[0] without a length check. *)
-Definition make_tree (fix_f06 : bool) (m : tmarshal) (oro : option roster) : res stree :=
+(* TreeMarshal.MakeTree.
+   fix_f06 = false: the pinned code indexes Children[0] without a length check.
+   fix_n2  = false: a nil roster ([None]) is dereferenced (ro.ID panics). *)
+Definition make_tree (fix_f06 fix_n2 : bool) (m : tmarshal) (oro : option roster) : res stree :=
   match oro with
-  | None => Crash
+  | None => if fix_n2 then Err else Crash
   | Some ro =>
       if negb (r_id ro =? tm_rid m) then Err else
       match tm_children m with
@@ -137,11 +138,11 @@ Definition make_tree (fix_f06 : bool) (m : tmarshal) (oro : option roster) : res
 (* NewTreeFromMarshal: the codec (network.Unmarshal, protobuf) is not modelled;
    [dec] is what the bytes decode to: None = undecodable or not a TreeMarshal.
    The second computeSubtreeAggregate recomputes the same stored values. *)
-Definition from_bytes (fix_f06 : bool) (dec : option tmarshal) (oro : option roster) : res stree :=
+Definition from_bytes (fix_f06 fix_n2 : bool) (dec : option tmarshal) (oro : option roster) : res stree :=
   match dec with
   | None => Err
   | Some m =>
-      match make_tree fix_f06 m oro with
+      match make_tree fix_f06 fix_n2 m oro with
       | Ok t => Ok (mkTree (t_id t) (t_ro t) (with_aggs (t_root t)))
       | r => r
       end
@@ -149,11 +150,11 @@ Definition from_bytes (fix_f06 : bool) (dec : option tmarshal) (oro : option ros
 
 (* Tree.BinaryUnmarshaler: outer = what the bytes decode to: None = not a
    tbmStruct; Some (inner, ro) = the decoding of its T field and its roster *)
-Definition binary_unmarshal (fix_f06 : bool)
+Definition binary_unmarshal (fix_f06 fix_n2 : bool)
            (outer : option (option tmarshal * option roster)) : res stree :=
   match outer with
   | None => Err
-  | Some (inner, oro) => from_bytes fix_f06 inner oro
+  | Some (inner, oro) => from_bytes fix_f06 fix_n2 inner oro
   end.
 
 (* ---------- equality as Go tests it, search, list --------------------------- *)
